@@ -5,13 +5,13 @@ from run import Q, Unit
 UNITS = [Unit('c08')]
 def queries(tier):
     qs = []
-    MAX = 4 if tier == 'quick' else 8
+    MAX = 4 if tier == 'quick' else 6      # measured: m=5 <= 250 s each; m=6 push 244 s, pop 976 s, remove no verdict in 1200 s; m=7/8 never finished
     for (entry, nm, lo, what) in [('harness_push', 'push', 0, 'push(x) of a new element with arbitrary priority'), ('harness_pop', 'pop', 1, 'pop()'),
                                   ('harness_remove', 'remove', 1, 'remove(any contained element: root, first child, middle/last sibling, leaf)')]:
         for m in range(lo, MAX + 1):
-            big = m >= 7
+            big = m >= 6
             qs.append(Q('%s.m%d' % (nm, m), 'c08', 'c08_heap.c', entry, defs={'M': m}, unwind=m + 3, checks='none', inline_witness=True,
-                        timeout=3000 if big else 1200, mem_gb=12 if big else 6, optional=(m > 6),
+                        timeout=1500 if big else 1200, mem_gb=8 if big else 6, optional=(m > 5),
                         bounds={'elements contained before the operation': m, 'priorities': 'arbitrary 32-bit (ties included)', 'pre-state': 'ANY heap satisfying the representation invariant (solver-chosen shape and priorities)',
                                 'collapse/sibling loops': m + 3},
                         what='inductive step: ' + what + ' on an arbitrary valid heap of %d elements -> invariant, exact membership change, top()/empty() observations' % m))
